@@ -106,7 +106,7 @@ def compu(c) -> str:
                 s += f" ({nm} {int(lim[0])} {lim[1].lower()})"
         return s + ")"
     if isinstance(c, D.TextTable):
-        return "(texttable" + "".join(f" (scale {ival(lo)} {ival(hi)} {shex(t)})" for lo, hi, t in c.scales) + ")"
+        return "(texttable" + "".join(f" (scale {ival(lo)} {ival(hi)} {shex(t)}" + (f" {ival(c.inv[t])})" if c.inv and t in c.inv else ")") for lo, hi, t in c.scales) + ")"
     return "(other)"
 
 
